@@ -59,6 +59,8 @@ static void make_arena(State& S, bool exclusive) {
     if (ht != nullptr) { HeapEnt et; et.h = ht; et.alive = true; et.arena = (int)S.arenas.size() - 1; S.heaps.push_back(et); g_ar_tagged_heaps++; }
   }
   g_ar_geoms++;
+  // the arena is empty: a modest request from the heap bound to it must succeed (a bound heap refuses only when its arena is full) -- whatever the arena options say
+  { void* q = mi_heap_malloc(h, 1000); if (q == nullptr) vf_trip("bound-heap-refuses-empty-arena", "C15,C13", "mi_heap_malloc(1000) from a heap bound to a fresh, empty arena of %zu blocks returned NULL", nb); mi_free(q); }
   char b[160]; snprintf(b, sizeof(b), "[arena#%zu blocks=%zu off=%zuK size=%zuK committed=%d excl=%d area=%zuMiB] ", S.arenas.size() - 1, nb, off / 1024, size / 1024, (int)committed, (int)exclusive, asz >> 20); g_geom += b;
 }
 
